@@ -2026,3 +2026,10 @@ TABLE["C13"] += [
       (IP + "template.py", "                for inst in instantiations:\n                    x = inst.typename if isinstance(inst,\n                                                    TemplatedType) else inst\n                    self.instantiations.append(x)\n",
        "                self.instantiations = [inst.typename if isinstance(inst, TemplatedType) else inst for inst in instantiations]\n")),
 ]
+TABLE["C04"] += [
+    B("template-argument-slot-rebound-instead-of-renamed", {"B15"},
+      (TI + "helpers.py", "        for instantiation in typename.instantiations:\n            if instantiation.name in template_typenames:\n                template_idx = template_typenames.index(instantiation.name)\n                instantiation.name = instantiations[template_idx]",
+       "        for idx, instantiation in enumerate(typename.instantiations):\n            if instantiation.name in template_typenames:\n                template_idx = template_typenames.index(instantiation.name)\n                typename.instantiations[idx] = deepcopy(instantiations[template_idx])")),
+    B("unqualified-base-resolved-in-the-class-namespace", {"B16"},
+      (TI + "classes.py", "        else:\n            return self.original.parent_class\n", "        elif self.original.parent_class and not self.original.parent_class.namespaces and self.parent and self.parent.name:\n            return parser.Typename(self.parent.full_namespaces() + [self.original.parent_class.name])\n        else:\n            return self.original.parent_class\n")),
+]
